@@ -52,6 +52,8 @@ func main() {
 	parseOut := flag.String("parse-out", "", "output Lean file for the translated body of Session.Parse (F11, Gen/ParseGen.lean); default: not written")
 	arpOut := flag.String("arp-out", "", "output Lean file for the translated ARP spoofing handler (F15, Gen/ArpGen.lean); default: not written")
 	tablesOut := flag.String("tables-out", "", "output Lean file for the translated host/MAC table operations (F14, Gen/TablesGen.lean); default: not written")
+	pingOut := flag.String("ping-out", "", "output Lean file for the translated ping / echo notification code (F19, Gen/PingGen.lean); default: not written")
+	sessLifeOut := flag.String("sesslife-out", "", "output Lean file for the translated session life cycle (F19, Gen/SessLifeGen.lean); default: not written")
 	icmp6Out := flag.String("icmp6-out", "", "output Lean file for the translated ICMPv6 / NDP spoofing handler (F15, Gen/Icmp6Gen.lean); default: not written")
 	sendOut := flag.String("send-out", "", "output Lean file for the translated send paths (F15, Gen/Senders.lean); default: not written")
 	dhcpSrvOut := flag.String("dhcpsrv-out", "", "output Lean file for the translated DHCPv4 server functions (F15, Gen/DhcpSrvGen.lean); default: not written")
@@ -147,6 +149,24 @@ func main() {
 		var pb strings.Builder
 		parseBodyFacts(root, &pb)
 		if err := os.WriteFile(*parseOut, []byte(pb.String()), 0o644); err != nil {
+			fmt.Fprintln(os.Stderr, err)
+			os.Exit(1)
+		}
+	}
+	if *pingOut != "" {
+		fset = pkgs[0].Fset
+		var pb strings.Builder
+		pingFacts(root, &pb)
+		if err := os.WriteFile(*pingOut, []byte(pb.String()), 0o644); err != nil {
+			fmt.Fprintln(os.Stderr, err)
+			os.Exit(1)
+		}
+	}
+	if *sessLifeOut != "" {
+		fset = pkgs[0].Fset
+		var sb strings.Builder
+		sessLifeFacts(root, &sb)
+		if err := os.WriteFile(*sessLifeOut, []byte(sb.String()), 0o644); err != nil {
 			fmt.Fprintln(os.Stderr, err)
 			os.Exit(1)
 		}
